@@ -127,6 +127,15 @@ let dump_di (d : distinfo) =
   "R=" ^ (match d.rcsid with None -> "N" | Some s -> arg_of_str s)
   ^ "|D=" ^ String.concat ";" (List.map show_dentry d.dists)
   ^ "|P=" ^ String.concat ";" (List.map show_dentry d.patches)
+(* code points -> UTF-8 bytes: a checksum given to the API is a Rust String, what the model stores are its bytes *)
+let utf8_encode (cps : n list) : n list =
+  List.concat_map (fun c ->
+    let c = int_of_n c in
+    let b x = n_of_int x in
+    if c < 0x80 then [b c]
+    else if c < 0x800 then [b (0xC0 lor (c lsr 6)); b (0x80 lor (c land 0x3F))]
+    else if c < 0x10000 then [b (0xE0 lor (c lsr 12)); b (0x80 lor ((c lsr 6) land 0x3F)); b (0x80 lor (c land 0x3F))]
+    else [b (0xF0 lor (c lsr 18)); b (0x80 lor ((c lsr 12) land 0x3F)); b (0x80 lor ((c lsr 6) land 0x3F)); b (0x80 lor (c land 0x3F))]) cps
 let dentry_of_arg (a : string) : dentry =
   match String.split_on_char '~' a with
   | name :: size :: rest ->
@@ -134,7 +143,7 @@ let dentry_of_arg (a : string) : dentry =
       let cs = if sums = "" then [] else
         List.map (fun s -> match String.index_opt s '=' with
                            | Some i -> (List.nth all_algs (int_of_string (String.sub s 0 i)),
-                                        str_of_arg (String.sub s (i + 1) (String.length s - i - 1)))
+                                        utf8_encode (str_of_arg (String.sub s (i + 1) (String.length s - i - 1))))
                            | None -> failwith "sum") (String.split_on_char ',' sums) in
       { ename = str_of_arg name; esize = (if size = "N" then None else Some (z_of_decimal size)); esums = cs }
   | _ -> failwith "entry"
@@ -309,7 +318,9 @@ let run (op : string) (args : string list) : string =
               else (match r with b1 :: b2 :: b3 :: r3 -> n_of_int (((b0 land 0x07) lsl 18) lor ((int_of_n b1 land 0x3F) lsl 12) lor ((int_of_n b2 land 0x3F) lsl 6) lor (int_of_n b3 land 0x3F)) :: go r3 | _ -> [])
         in go l in
       let text_in, bad = if op = "scan.readb" then (if utf8_valid bytes_in then (decode bytes_in, false) else ([], true)) else (bytes_in, false) in
-      (match (if bad then None else scan_read text_in (k <> "N")) with
+      (* k: "N" (or "N:<kind>") = the reader does not fail; "<lines>" / "<lines>:<kind>" = it fails after that many lines *)
+      let no_failure = (k = "N") || (String.length k > 1 && String.sub k 0 2 = "N:") in
+      (match (if bad then None else scan_read text_in (not no_failure)) with
        | None -> "E"
        | Some rs ->
            "OK:" ^ String.concat "#" (List.map (fun r ->
